@@ -48,6 +48,8 @@ CONSTANTS
   Ranges,     \* range of the matrix selector (ms)
   Offsets,    \* offset modifier (ms)
   UseSTs,     \* subset of BOOLEAN: engine option UseStartTimestamps
+  Steps,      \* range queries: step widths in ms; 0 = instant query
+  NSteps,     \* range queries: number of steps
   BuildMode,  \* TRUE: the case is built step by step (simulation)
   EmitOn
 
@@ -58,10 +60,14 @@ VARIABLES
   win,     \* samples selected by the matrix selector (rangeStart < t <= rangeEnd)
   i,       \* loop index
   r,       \* working record of the function being evaluated
-  out,     \* [present |-> BOOLEAN, v |-> value]
-  ref      \* what the reference demands (set at the last step)
+  out,     \* [present |-> BOOLEAN, v |-> value]: the output sample of the current step
+  stp,     \* range query: index of the current step (0 for an instant query)
+  outs,    \* outputs of the finished steps
+  carry,   \* the points (with start timestamps) matrixIterSlice keeps from the previous step
+  ref,     \* what the reference demands at the first evaluation time (set at the end)
+  refs     \* ... and at every step
 
-vars == <<pc, ser, qy, win, i, r, out, ref>>
+vars == <<pc, ser, qy, win, i, r, out, stp, outs, carry, ref, refs>>
 
 -----------------------------------------------------------------------------
 (* exact rationals + NaN                                                    *)
@@ -215,7 +221,7 @@ Tie(s, q0) ==
          thr == XMul(Q(11, 10), avg)
      IN \/ thr = I(RangeEnd(q) - w[n].t)
         \/ thr = I(w[1].t - RangeStart(q)) /\ ~(q.fn # "delta" /\ STInside(w, q))
-TieFree == ~Tie(ser, qy)
+TieFree == \A j \in 0..(qy.ns - 1) : ~Tie(ser, [qy EXCEPT !.e = qy.e + j * qy.st])
 
 -----------------------------------------------------------------------------
 (* The evaluation as promql/functions.go performs it                        *)
@@ -224,12 +230,18 @@ Series(n) ==   \* all series with n samples (exhaustive mode)
   UNION {UNION {{[k \in 1..n |-> [t |-> ts[k], v |-> vs[k], st |-> STOf(m, ts, k)]] : vs \in [1..n -> ValSet]}
                  : m \in STModes}
          : ts \in {SetToSortSeq(S, <) : S \in kSubset(n, Times)}}
-Queries == [fn : Fns, e : Evals, rg : Ranges, off : Offsets, usest : UseSTs]
-NoQ == [fn |-> "", e |-> 0, rg |-> 0, off |-> 0, usest |-> FALSE]
+\* e is the (first) evaluation time; a range query has ns steps of width st
+Queries == {q \in [fn : Fns, e : Evals, rg : Ranges, off : Offsets, usest : UseSTs, st : Steps, ns : {1, NSteps}] :
+              (q.st = 0) = (q.ns = 1)}
+NoQ == [fn |-> "", e |-> 0, rg |-> 0, off |-> 0, usest |-> FALSE, st |-> 0, ns |-> 1]
+\* the query as evaluated at step j (0-based): "a range query is the instant query at every step"
+StepQ(j) == [qy EXCEPT !.e = qy.e + j * qy.st]
+CurQ == StepQ(stp)
 NoOut == [present |-> FALSE, v |-> Zero]
 
 Init ==
   /\ win = <<>> /\ i = 0 /\ r = <<>> /\ out = NoOut /\ ref = <<>>
+  /\ stp = 0 /\ outs = <<>> /\ carry = <<>> /\ refs = <<>>
   /\ IF BuildMode THEN pc = "build" /\ ser = <<>> /\ qy = NoQ
      ELSE /\ pc = "select"
           /\ ser \in UNION {Series(n) : n \in MinN..MaxN}
@@ -261,14 +273,22 @@ Query ==
   /\ pc' = "select" /\ i' = 0
   /\ UNCHANGED <<ser, win, r, out, ref>>
 
-\* matrixSelector / matrixIterSlice: samples with mint < t <= maxt; start timestamps are collected
-\* only if the engine option is set and the function is rate, irate, increase or resets
+\* matrixSelector / matrixIterSlice for the current step.  Start timestamps are collected only if the
+\* engine option is set and the function is rate, irate, increase or resets.  In a range query the
+\* points of the previous step are reused: those at or before the new mint are dropped from the front
+\* (start timestamps truncated at the same drop point); if the newest kept point is not after mint
+\* everything is cleared (start timestamps too); then the samples after the newest kept point up to maxt
+\* are appended.
+Masked(x) == [x EXCEPT !.st = IF EffQ(qy).usest THEN x.st ELSE 0]
 Select ==
   /\ pc = "select"
   /\ TieFree                    \* exact ties of the 1.1 x threshold are not explored (see header)
-  /\ LET q == EffQ(qy) IN
-     win' = [k \in 1..Len(Window(ser, qy)) |->
-               LET x == Window(ser, qy)[k] IN [x EXCEPT !.st = IF q.usest THEN x.st ELSE 0]]
+  /\ LET mint  == RangeStart(CurQ)
+         maxt  == RangeEnd(CurQ)
+         kept  == IF carry # <<>> /\ carry[Len(carry)].t > mint THEN SelectSeq(carry, LAMBDA x : x.t > mint) ELSE <<>>
+         mintF == IF kept # <<>> THEN kept[Len(kept)].t ELSE mint
+         new   == SelectSeq(ser, LAMBDA x : x.t > mintF /\ x.t <= maxt)
+     IN win' = kept \o [j \in 1..Len(new) |-> Masked(new[j])]
   /\ pc' = CASE qy.fn \in {"rate", "increase", "delta"} -> "rate.init"
              [] qy.fn \in {"irate", "idelta"} -> "instant"
              [] OTHER -> "count.init"
@@ -303,11 +323,11 @@ RateResets ==
 \* the single-sample exit or the extrapolation of the start
 RateStart ==
   /\ pc = "rate.st"
-  /\ LET rs    == RangeStart(qy)
+  /\ LET rs    == RangeStart(CurQ)
          firstT == win[1].t
          lastT == win[N].t
          dts   == I(firstT - rs)
-         dte   == I(RangeEnd(qy) - lastT)
+         dte   == I(RangeEnd(CurQ) - lastT)
          si    == I(lastT - firstT)
          avg   == IF N > 1 THEN XDiv(si, I(N - 1)) ELSE Zero
          thr   == XMul(avg, Q(11, 10))
@@ -372,13 +392,23 @@ CountLoop ==
   /\ UNCHANGED <<ser, qy, win, ref>>
 
 \* bookkeeping (single successor): ask the reference, once
-Fin == /\ pc = "fin" /\ pc' = "end" /\ ref' = Ref(ser, qy)
-       /\ UNCHANGED <<ser, qy, win, i, r, out>>
+\* end of a step: rangeEval stores the output sample and moves to the next step (the point slices are
+\* handed to the next matrixIterSlice call); after the last step the reference is asked, once
+Fin == /\ pc = "fin"
+       /\ outs' = Append(outs, out)
+       /\ IF stp + 1 < qy.ns
+            THEN /\ pc' = "select" /\ stp' = stp + 1 /\ carry' = win
+                 /\ win' = <<>> /\ i' = 0 /\ r' = <<>> /\ out' = NoOut
+                 /\ UNCHANGED <<ref, refs>>
+            ELSE /\ pc' = "end" /\ ref' = Ref(ser, qy)
+                 /\ refs' = [j \in 1..qy.ns |-> Ref(ser, StepQ(j - 1))]
+                 /\ UNCHANGED <<stp, carry, win, i, r, out>>
+       /\ UNCHANGED <<ser, qy>>
 
 Next ==
   \/ /\ \/ Plan \/ AppendT \/ AppendV \/ Query \/ Select \/ RateInit \/ RateResets \/ RateStart \/ RateZero \/ RateEnd
         \/ Instant \/ CountInit \/ CountLoop
-     /\ UNCHANGED ref
+     /\ UNCHANGED <<ref, stp, outs, carry, refs>>
   \/ Fin
 
 Spec == Init /\ [][Next]_vars
@@ -395,7 +425,11 @@ TypeOK ==
   /\ out.present \in BOOLEAN
 
 \* the code computes the documented algorithm (ties excluded: both sides use the exact 11/10 there)
-ImplMatchesRef == Finished => out = ref
+ImplMatchesRef == Finished => outs = refs
+\* the incrementally maintained window (and its start timestamps) is the window of the current step
+WindowReuse ==
+  pc \in {"rate.init", "rate.resets", "rate.st", "rate.zero", "rate.end", "instant", "count.init", "count.loop", "fin"} =>
+     win = [j \in 1..Len(Window(ser, CurQ)) |-> Masked(Window(ser, CurQ)[j])]
 
 NonNegSeries == \A k \in 1..Len(ser) : XLe(Zero, ser[k].v)
 \* non-negative counter samples never give a negative rate or increase
@@ -439,7 +473,7 @@ OffsetLaw ==
      LET q2 == [qy EXCEPT !.off = 0, !.e = qy.e - qy.off] IN Ref(ser, q2) = ref
 
 -----------------------------------------------------------------------------
-Case == [s |-> ser, q |-> qy, out |-> ref, n |-> Len(Window(ser, qy)),
+Case == [s |-> ser, q |-> qy, out |-> ref, outs |-> refs, n |-> Len(Window(ser, qy)),
          stin |-> STInside(Window(ser, EffQ(qy)), EffQ(qy))]
 Emit == ~EmitOn \/ pc # "end" \/ PrintT("@@TR " \o ToJson(Case))
 =============================================================================
